@@ -22,7 +22,9 @@ PROPERTY = "C04"
 SALT = 0xC04
 RULE = ("(a) for each of 14 binary 8-bit operations (ADD/SUB/ADC/SBC/AND/OR/XOR/CMP/TEST A,n; ADCL/SBCL/DADL/DSBL (m),(n) "
         "with I=1; PMDF (m),n) every (a,b,carry-in) in 256x256x2 (quick: seeded 1/16 slice + boundary grid), for 13 unary "
-        "forms (ROR/ROL/SHR/SHL/SWAP A, INC/DEC A, ROR/ROL/SHR/SHL/INC/DEC (n)) every (a,carry-in); (b) all (prefix, opcode) "
+        "forms (ROR/ROL/SHR/SHL/SWAP A, INC/DEC A, ROR/ROL/SHR/SHL/INC/DEC (n)) every (a,carry-in); (b') boundary grids: "
+        "ADD/SUB over every README-documented register pair, INC/DEC r, CMPW/CMPP (m),(n)|(m),r, the other 8-bit encodings "
+        "((m),n; A,(n); (n),A; (m),(n); [lmn],n) on {00,01,0F,10,7F,80,99,9A,F0,FF}^2 x carry; (b) all (prefix, opcode) "
         "pairs x generated states as in C03 (I in 1..24, thorough 1/6 up to 300; BCD operands planted for DADL/DSBL; "
         "carry-chain patterns 00/FF/99). Non-trivial = the reference run produces a carry/borrow, a zero result, a pointer "
         "pre/post update, a stack transfer, a taken/not-taken conditional branch or a multi-byte chain/block with I>=2; "
@@ -54,7 +56,7 @@ def run(ctx: Ctx) -> Report:
     imax = ctx.pick(24, 300)
     tasks_b = [("explore", (PROPERTY, i, shards, ctx.seed, per, imax, SALT)) for i in range(shards)]
     # interleave so that the long enumeration shards and the exploration shards share the pool evenly
-    tasks: List[Any] = []
+    tasks: List[Any] = [("grid", (i, 8, ctx.seed)) for i in range(8)]
     for i in range(max(len(tasks_a), len(tasks_b))):
         if i < len(tasks_a):
             tasks.append(tasks_a[i])
@@ -63,8 +65,8 @@ def run(ctx: Ctx) -> Report:
     rep = ctx.merge_reports(ctx.pmap(_dispatch, tasks))
     rep.rule = RULE
     rep.assumptions = list(ASSUMPTIONS)
-    rep.exhaustive = not ctx.quick      # part (a) complete in thorough; part (b) is sampled (see rule)
-    rep.extra["enumeration_complete"] = not ctx.quick
+    rep.exhaustive = False              # only part (a) is a finite space; parts (b),(b') sample the state dimension
+    rep.extra["part_a_operand_triples_complete"] = not ctx.quick
     return rep
 
 
@@ -72,6 +74,8 @@ def _dispatch(task: Any) -> Report:
     kind, t = task
     if kind == "enum":
         return E.enum_shard(t)
+    if kind == "grid":
+        return E.grid_shard(t)
     return K.explore_shard(t)
 
 
